@@ -46,7 +46,7 @@ def BOUND(tier):
         return {"trees": "plane trees <= 4 nodes (elec family: every distribution of 3 sets on <= 3 nodes, one set per node + dummy placements on 4 nodes); eph family on <= 3 nodes",
                 "depth": 2, "sectors": "all"}
     return {"trees": "plane trees <= 5 nodes (elec, 3 sets), <= 4 nodes (eph, two-component; 4 sets on 1, 2, 4 nodes), every distribution of the basis sets",
-            "depth": "2 (trees <= 3 nodes: every sector; 4-node trees and the 4-set family: two sectors; 5-node trees: observable battery in one sector)",
+            "depth": "2 (one-component families on trees <= 3 nodes: every sector; 4-node trees: two sectors (eph: one); 4-set family: trees <= 2 nodes, two sectors; two-component family: two sectors; 5-node trees: observable battery in one sector)",
             "sectors": "all for the observable battery (two-component family: 4 of 6)"}
 
 
@@ -86,7 +86,8 @@ def cases(tier, seed):
                             continue          # five-node trees: one sector, observable battery only (thorough budget)
                         if not quick and famname == "two3" and sec not in ([1, 1], [1, 0], [2, 1], [0, 0]):
                             continue          # two-component labels: four of the six sectors (thorough budget)
-                        heavy = not quick and (N == 4 or famname == "elec4") and isec not in (1, 2)
+                        heavy = not quick and (((N == 4 or famname == "elec4") and isec not in (1, 2)) or (famname == "elec4" and N > 2)
+                                               or (famname == "two3" and sec not in ([1, 1], [2, 1])) or (famname == "eph3" and N == 4 and isec != 1))
                         if N < 5 and not heavy:   # thorough budget: depth-2 sequences on 4-node trees / 4 basis sets in two sectors, battery in all
                             yield dict(base, mode="seq")
                         yield dict(base, mode="battery", full_battery=not quick)
